@@ -118,8 +118,15 @@ def gen_case(rng, tier: str, big_ok: bool) -> dict:
             for f, s in zip(afams, split):
                 k = int(round(na * s / tot))
                 nh_count = rng.choice([1, 1, 2, 3, 4])
-                for x in gen_nlris(rng, f, k, neg.addpath.send(*pr.FAMS[f]), seen, bias):
-                    anns.append(x + [rng.randrange(nh_count)])
+                # IPv4 multicast: a third of the collections mix IPv4 and IPv6 next hops (RFC 8950), so the next-hop
+                # groups of one MP family have headers of different sizes; sometimes the odd one out is a single small route
+                mix6 = f == 2 and rng.random() < 0.35
+                lone = mix6 and rng.random() < 0.5
+                for j, x in enumerate(gen_nlris(rng, f, k, neg.addpath.send(*pr.FAMS[f]), seen, bias)):
+                    if mix6:
+                        anns.append(x + [(rng.randrange(nh_count) if (j == 0) == lone else 4 + rng.randrange(2))])
+                    else:
+                        anns.append(x + [rng.randrange(nh_count)])
         split = [rng.random() for _ in afams]
         tot = sum(split) or 1
         for f, s in zip(afams, split):
